@@ -15,7 +15,7 @@ from .units import m_replay
 from .units import f_replay
 from .units import s_replay
 from .units.f import UnitF
-from .units.x import UnitX
+from .units.x import UnitX, UnitXR
 from .units import r_replay
 from .units import x_replay
 import functools as _ft
@@ -174,7 +174,7 @@ PROPS['C16'] = {
                     'Display output is a function of the value (display<T>)'],
 }
 PROPS['C07'] = {
-    'units': [UnitS, UnitR], 'level': 'proof', 'design_ref': 'DESIGN.md 4.7',
+    'units': [UnitS, UnitR, UnitXR], 'level': 'proof', 'design_ref': 'DESIGN.md 4.7',
     'scope': '(b) transmission half: a request that fails its restriction check yields an error and no network-capable call is reachable '
              'before the check has passed',
     'level_text': 'Deductive proof (Verus/Z3): every network-capable stand-in call (send, text) requires net_allowed(), and the helper is '
@@ -372,7 +372,7 @@ PROPS['C07']['level_text'] = ('(a) Per corpus program, the code EMITTED by the c
                               'facet holds (inherited facets of derived simple types included), composing through struct members, Option and Vec up to the '
                               'request envelope. The quantifier over schemas is the corpus (the hand-written corpus programs plus 3 generated ones; 45 generated in the thorough tier). '
                               '(b) ' + PROPS['C07']['level_text'])
-PROPS['C07']['level_note'] += (' L3: contracts of the helper runtime are imported from units R and S (proved there). Stand-ins for yaserde derives. '
+PROPS['C07']['level_note'] += (' Generator half of (a), unit XR (Verus/Z3, all restriction nodes): build_restrictions / get_restriction_from_attribute_or_node of structures/restrictions.rs read each of the 11 scalar facets from the attribute of that name or the value of the first child element of that name (compared up to surrounding white space); the enumeration list is built by iterator adapters outside Verus\' reach and is presented as an unconstrained value there (decided at L3). L3: contracts of the helper runtime are imported from units R and S (proved there). Stand-ins for yaserde derives. '
                                'Known finding: own facets of a simple type derived from a named simple type are not enforced.')
 
 def x_witness(pid, fails, repo):
@@ -543,7 +543,7 @@ def c13_witness(pid, fails, repo):
 
 
 PROPS['C13'] = {
-    'units': [UnitR, UnitM, UnitS, UnitW, UnitK, UnitD, UnitX], 'level': 'proof', 'design_ref': 'DESIGN.md 4.13', 'extra': c13_extra, 'witness': c13_witness,
+    'units': [UnitR, UnitM, UnitS, UnitW, UnitK, UnitD, UnitX, UnitXR], 'level': 'proof', 'design_ref': 'DESIGN.md 4.13', 'extra': c13_extra, 'witness': c13_witness,
     'scope': 'SCOPED: panic freedom (no unwrap/expect/assert/overflow/index failure) and termination (decreases on every loop) of the functions '
              'under contract in units R, M, S, W, K, D, X only (helpers_content.rs runtime, all writer functions, rename_keywords, the namespace table, the flattening recursion of complex.rs). '
              'The roxmltree-driven reading code is outside Verus\' reach and gets a BOUNDED mutant run instead (labelled, not counted as proved).',
